@@ -192,9 +192,11 @@ def _rio_reproject(
         if arr.dtype.name not in dtype_remap:
             return arr, False
         wk_dtype = dtype_remap[arr.dtype.name]
-        if arr.dtype.name == "bool":
+        if arr.dtype.name == "bool" and dst.dtype.name == "bool":
+            # bool -> bool goes through 0/255 and is thresholded back at the end
             F, T = (np.array(v, dtype=wk_dtype) for v in [0, 255])
             return np.where(arr, T, F), True
+        # bool pixels warped into any other pixel type are 0/1, like ``arr.astype(dst.dtype)``
         return arr.astype(wk_dtype), False
 
     if isinstance(resampling, str):
